@@ -19,6 +19,8 @@ Extracted (fail closed on every other shape):
     _run_pipelines_tuple_to_array -> _run_pipelines_array_to_datatree), from ModelFittingDataTree.fitness / _apply_parameters
     (self.pipeline_seed <- __init__ <- Calibration.run_calibration), and whether a `with set_random_seed(...)` surrounds the
     loop over the runs -> SeedEachRun / SeedOncePerCall / SeedNever
+  * the pickle route (src_pickle_policy): ModelGroup.__getstate__ hands the models over as they are and __setstate__
+    restores them as they were handed over (Deep), does not restore them (Drop), anything else fails closed
   * no class under pyxel/{pipelines,detectors,data_structure,exposure,observation} other than Processor / ModelGroup
     defines __deepcopy__/__copy__/__reduce__/__reduce_ex__/__getstate__/__setstate__
 """
@@ -29,7 +31,7 @@ from pathlib import Path
 
 from harness.core import TranslationError
 
-from .common import HEADER, body_no_doc, fail, find_func, parse
+from .common import HEADER, body_no_doc, fail, find_func, find_funcs, parse
 
 COPY_SITES = ("create_new_processor", "Processor.replace", "update_processor", "build_processors",
               "ModelFittingDataTree.__init__")
@@ -661,6 +663,56 @@ def seeding_rows(obs, dsk, fit, cal) -> list:
     return rows
 
 
+# ------------------------------------------------------------------ the pickle route (multi-process / distributed schedulers)
+
+def pickle_policy(proc_tree, grp_tree, proc_fields) -> tuple:
+    """The copy policy of a pickle round trip.  Processor has no pickle hook (scan_hooks): every field goes through.
+    ModelGroup.__getstate__ / __setstate__ (when present): `return {"k": tuple|list(self.models) | self.models, ...}` and
+    `self.models = list|tuple(state["k"]) | state["k"]` -> Deep; the models not restored -> Drop; anything else fails closed
+    (a filtered, sorted, re-built list is not the user's list of models)."""
+    procs = [(f, "Deep") for f, _ in proc_fields]
+    get = find_funcs(grp_tree, "__getstate__", "ModelGroup")
+    sett = find_funcs(grp_tree, "__setstate__", "ModelGroup")
+    if not get and not sett:
+        return procs, [("models", "Deep")]
+    if len(get) != 1 or len(sett) != 1:
+        raise TranslationError("ModelGroup: __getstate__ and __setstate__ must both be defined (once)")
+    gb = body_no_doc(get[0])
+    if not (len(gb) == 1 and isinstance(gb[0], ast.Return) and isinstance(gb[0].value, ast.Dict)):
+        fail(get[0], "ModelGroup.__getstate__ must be `return {...}`")
+    key = None
+    for k, v in zip(gb[0].value.keys, gb[0].value.values):
+        if not (isinstance(k, ast.Constant) and isinstance(k.value, str)):
+            fail(gb[0], "ModelGroup.__getstate__: non-literal key")
+        txt = ast.unparse(v)
+        if "models" in txt:
+            if txt not in ("tuple(self.models)", "list(self.models)", "self.models"):
+                fail(v, "ModelGroup.__getstate__: the models are not handed over as they are")
+            key = k.value
+        elif self_attr(v) is None and not isinstance(v, ast.Constant):
+            fail(v, "ModelGroup.__getstate__: unrecognised value")
+    if key is None:
+        return procs, [("models", "Drop")]
+    state = sett[0].args.args[1].arg if len(sett[0].args.args) > 1 else None
+    mode = "Drop"
+    for st in body_no_doc(sett[0]):
+        tgt = val = None
+        if isinstance(st, ast.Assign) and len(st.targets) == 1:
+            tgt, val = st.targets[0], st.value
+        elif isinstance(st, ast.AnnAssign) and st.value is not None:
+            tgt, val = st.target, st.value
+        if tgt is None or self_attr(tgt) is None:
+            fail(st, "ModelGroup.__setstate__: only `self.<attr> = ...` statements")
+        if self_attr(tgt) == "models":
+            ok = {f"list({state}['{key}'])", f"tuple({state}['{key}'])", f"{state}['{key}']"}
+            if ast.unparse(val) not in ok:
+                fail(st, "ModelGroup.__setstate__: the models are not restored as they were handed over")
+            mode = "Deep"
+        elif "models" in ast.unparse(val):
+            fail(st, "ModelGroup.__setstate__: the models are stored somewhere else")
+    return procs, [("models", mode)]
+
+
 def scan_hooks(repo: Path):
     for d in SCAN_DIRS:
         for f in sorted((repo / d).rglob("*.py")):
@@ -717,8 +769,9 @@ def extract(repo: Path) -> dict:
         ("dask._run_pipelines_array_to_datatree", find_func(dsk, "_run_pipelines_array_to_datatree"), "processor"),
     ]]
     vcopy = [(name, value_copied(fn, name)) for name, fn, src in copy_fns]
+    ppf, pgf = pickle_policy(proc, grp, pf)
     return dict(proc_fields=pf, group_fields=gf, sites=sites, effects=effects, value_copy=vcopy,
-                seeding=seeding_rows(obs, dsk, fit, cal))
+                seeding=seeding_rows(obs, dsk, fit, cal), pickle_proc=ppf, pickle_group=pgf)
 
 
 def render(d: dict) -> str:
@@ -732,7 +785,8 @@ def render(d: dict) -> str:
             f"Definition src_site_effects : list (string * effect) := {tbl(d['effects'])}.\n"
             "Definition src_value_copy : list (string * bool) := "
             f"{tbl([(n, 'true' if b else 'false') for n, b in d['value_copy']])}.\n"
-            f"Definition src_seeding : list (string * seeding) := {tbl(d['seeding'])}.\n")
+            f"Definition src_seeding : list (string * seeding) := {tbl(d['seeding'])}.\n"
+            f"Definition src_pickle_policy : policy := mkPolicy {tbl(d['pickle_proc'])} {tbl(d['pickle_group'])}.\n")
 
 
 def translate(repo: Path) -> str:
@@ -753,5 +807,7 @@ FALLBACK_DATA = dict(
                 for s in COPY_SITES],
     seeding=[(s, "SeedEachRun") for s in ("Observation.run_pipelines", "dask.run_pipelines_with_dask",
                                           "ModelFittingDataTree.fitness", "ModelFittingDataTree._apply_parameters")],
+    pickle_proc=[("detector", "Deep"), ("pipeline", "Deep"), ("observation", "Deep")],
+    pickle_group=[("models", "Deep")],
 )
 FALLBACK = render(FALLBACK_DATA)
